@@ -603,8 +603,11 @@ class Authorization(Endpoint):
 
         if resource_indicators_config is not None:
             if "policy" not in resource_indicators_config:
-                policy = {"policy": {"function": validate_resource_indicators_policy}}
-                resource_indicators_config.update(policy)
+                # The default policy, for this request: the configuration stays as it is
+                resource_indicators_config = dict(
+                    resource_indicators_config,
+                    policy={"function": validate_resource_indicators_policy},
+                )
             request = self._enforce_resource_indicators_policy(request, resource_indicators_config)
 
         return request
@@ -614,7 +617,8 @@ class Authorization(Endpoint):
 
         policy = config["policy"]
         function = policy["function"]
-        kwargs = policy.get("kwargs", {})
+        # a copy, what is added below is about this request's client
+        kwargs = dict(policy.get("kwargs", {}))
 
         if kwargs.get("resource_servers_per_client", None) is None:
             kwargs["resource_servers_per_client"] = {request["client_id"]: request["client_id"]}
